@@ -10,7 +10,7 @@ const { norm } = require('../oracles/erase')
 
 async function build (tier) {
   // quick tier: in family B a second deviation is only taken as (statement ctx x expression ctx) pair
-  const r = F.all(tier, { families: ['A', 'B', 'C', 'G', 'M', 'S'], B: tier === 'thorough' ? {} : { pairs: 'ctx-only' } })
+  const r = F.all(tier, { families: ['A', 'B', 'C', 'G', 'M', 'S', 'P'], B: tier === 'thorough' ? {} : { pairs: 'ctx-only' } })
   return {
     leaves: r.leaves,
     stats: r.stats,
@@ -32,6 +32,7 @@ function sigOf (leaf, why) {
   if (leaf.stmtctx !== 'expr') parts.push('sctx=' + leaf.stmtctx)
   if (leaf.scope !== 'sloppy') parts.push('scope=' + leaf.scope)
   if (leaf.config !== 'FULL') parts.push('cfg=' + leaf.config)
+  if (leaf.fam === 'P') parts.push('operands=' + [leaf.X, leaf.Y, leaf.Z].filter((x) => x !== undefined).join('|'))
   return parts.join(' ') + ' :: ' + why
 }
 
